@@ -367,8 +367,34 @@ class Parser:
         self.unary_bp = self.bin['~unary~'][0]
 
     # -- token helpers -----------------------------------------------------
+    # Tokens that begin (or belong to) constructs which are valid in the language but outside the subset grammar of
+    # this stub.  Meeting one where the subset grammar cannot continue is a limitation of the stub (a probe), not a
+    # verdict about the program: only what the stub *knows* to be wrong is IllFormed.
+    _VALID_OUTSIDE_SUBSET = {
+        'R': {'$', '|>', '%>%', '@', '::', ':::', 'function', 'if', 'else', '->', '<<-', '~', '?'},
+        'matlab': {'@', '...', '~', "'", '.', '?', 'end', 'function', 'if', 'else', 'elseif'},
+        'scilab': {'@', '...', '..', '~', "'", '.', '$', 'then', 'else', 'function', 'if'},
+        'julia': {'do', '.', '.=', '@', ',', 'const', 'local', 'global', 'for', 'in', 'if', 'else', '|>', '->', '::', '?', ':',
+                  '...', '$', '<:', 'where', 'end', '=', '.+', '.-', '.*', './'},
+        'idl': {'?', ':', '->', '$', '&', '&&', '||', '#', '##', 'begin', 'end', 'endif', 'else', 'then', 'of', '.'},
+        'mathematica': {'//', '&', '#', '/@', '@', '@@', '/.', '->', ':>', '//.', '~', '_', '?', '/;', '<>', '|', ';;', '=.', '@@@',
+                        '##', '\\[', '`'},
+        'maple': {'return', '->', 'proc', 'end', 'local', 'global', 'option', 'description', '::', '..', '$', '||', '@', "'", '`',
+                  'if', 'then', 'else', 'elif', 'fi', 'do', 'od', 'use'},
+    }
+    _COMMAND_SYNTAX = ('clear', 'clearvars', 'close', 'format', 'hold', 'clc', 'more', 'warning', 'disp', 'pkg', 'stacksize')
+
     def bad(self, reason, tok=None, detail=''):
         tok = tok or self.toks[self.i]
+        if reason in ('stray_tokens', 'unexpected_token', 'bad_argument_list', 'missing_statement_terminator'):
+            valid = self._VALID_OUTSIDE_SUBSET.get(self.lang, set())
+            prev = self.toks[self.i - 1] if self.i > 0 else None
+            near = [tok.text] + ([prev.text] if prev is not None else [])
+            if any(x in valid for x in near):
+                self.lim('construct_outside_subset_grammar', tok)
+            if self.lang in ('matlab', 'scilab') and tok.kind in ('id', 'str', 'num') and prev is not None \
+                    and prev.kind == 'id' and prev.text in self._COMMAND_SYNTAX:
+                self.lim('command_syntax', tok)       # "clear fileid", "format long", ...
         what = 'end of line' if tok.kind == 'nl' else 'end of input' if tok.kind == 'eof' else repr(tok.text)
         raise IllFormed(f'{self.lang}:{reason}: line {tok.line}: at {what} {detail}'.rstrip())
 
@@ -1466,6 +1492,10 @@ class MatlabInterp(Interp):
         if dst is not None and dst not in _ML_CLASS:
             if dst == 'char':
                 self.lim('fread_precision', spec)
+            if dst in _ML_SRC:
+                # 'float32=>float32': the documentation lists one table of names "for source and output"; whether every
+                # alias is accepted as output class is not certain enough for a verdict
+                self.lim('fread_precision_output_alias', spec)
             self.bad('fread_bad_precision', f'{spec!r}: unknown output class')
         code = _ML_SRC[src]
         return code, (code if star else _ML_CLASS[dst] if dst else 'f8')
@@ -1788,6 +1818,10 @@ class RInterp(Interp):
         _, f, args, br = node
         if br == '[':
             target = self.ev(f, env)
+            named = [kw for kw, _ in args if kw is not None]
+            if named:
+                # v[, i:j, drop=FALSE]: named arguments of `[` are options, not subscripts; dropping is not modelled
+                self.lim('named_argument_of_subscript', ','.join(named))
             return self.index(target, [self.ev(n, env) for _, n in args],
                               f[1] if f[0] == 'id' else 'value')
         if f[0] == 'id' and f[1] not in env:
@@ -2252,6 +2286,8 @@ class JuliaInterp(Interp):
 
     # -- builtins ---------------------------------------------------------------
     def io(self, v, fn):
+        if isinstance(v, str):
+            self.lim(f'{fn}_with_file_name', 'methods taking a file name instead of a stream are not modelled')
         if not isinstance(v, FileH):
             self.bad(f'{fn}_bad_stream', f'first argument must be an IO stream, got {v!r}')
         if id(v) not in self.files:
@@ -3142,7 +3178,15 @@ def run_ragged_snippet(language, code, cwd, example_var='sa'):
                 it.rt('accessor_not_defined', 'no IF statement after the example comment')
             it.env['k'] = int(k)
             it.env.pop(var, None)
-            it.exec(idl_if, it.env)
+            # every example statement after the `k = N` assignment is the "accessor" in IDL (helper variables like
+            # starti/endi may be computed before the IF)
+            seen_k = False
+            for s in example:
+                if s.node[0] == 'assign' and s.node[1] == ('id', 'k'):
+                    seen_k = True
+                    continue
+                if seen_k or not any(x.node[0] == 'assign' and x.node[1] == ('id', 'k') for x in example):
+                    it.exec(s, it.env)
             if var not in it.env:
                 it.rt('example_variable_unbound', var)
             return _final(it, it.env[var])
